@@ -6,6 +6,7 @@ import sys
 import time
 
 from . import graph
+from . import manifest_text
 
 HERE = os.path.dirname(os.path.dirname(os.path.abspath(__file__)))
 EVID = os.environ.get('VERIF_EVIDENCE_DIR') or os.path.join(HERE, 'evidence')
@@ -21,14 +22,23 @@ TRUSTED = [
     'user types K, V, Q, F are ordinary Rust (no unsafe code reaching into the container)',
 ]
 
+ALLCFG = ['A', 'B', 'C', 'E']
 PROPS = {
-    'C02': {'quick': ['A', 'B'], 'thorough': ['A', 'B', 'C', 'E'], 'level': 'proof', 'e2': True},
-    'C03': {'quick': ['A', 'B'], 'thorough': ['A', 'B', 'C', 'E'], 'level': 'proof', 'e2': True},
-    'C04': {'quick': ['A', 'B'], 'thorough': ['A', 'B', 'C', 'E'], 'level': 'proof', 'e2': True},
-    'C05': {'quick': ['A', 'B'], 'thorough': ['A', 'B', 'C', 'E'], 'level': 'proof', 'e2': True},
-    'C17': {'quick': ['A', 'B'], 'thorough': ['A', 'B', 'C', 'E'], 'level': 'proof', 'e2': True},
+    # safety properties: every root, debug + release MIR
+    'C02': {'quick': ['A', 'B'], 'thorough': ALLCFG, 'level': 'proof', 'e2': True, 'roots': 'all'},
+    'C03': {'quick': ['A', 'B'], 'thorough': ALLCFG, 'level': 'proof', 'e2': True, 'roots': 'all'},
+    'C04': {'quick': ['A', 'B'], 'thorough': ALLCFG, 'level': 'proof', 'e2': True, 'roots': 'all'},
+    'C05': {'quick': ['A', 'B'], 'thorough': ALLCFG, 'level': 'proof', 'e2': True, 'roots': 'all'},
+    'C17': {'quick': ['A', 'B'], 'thorough': ALLCFG, 'level': 'proof', 'e2': True, 'roots': 'all'},
     'C06': {'quick': ['A', 'B', 'C', 'D'], 'thorough': ['A', 'B', 'C', 'D', 'E'], 'level': 'proof', 'e2': False},
+    # behavioural properties: outcome schemas on the anchor roots of the property
+    'C12': {'quick': ['A', 'B'], 'thorough': ALLCFG, 'level': 'proof', 'e2': True, 'roots': 'anchors'},
+    'C01': {'quick': ['A', 'B'], 'thorough': ALLCFG, 'level': 'other', 'e2': True, 'roots': 'anchors'},
+    'C07': {'quick': ['A', 'B'], 'thorough': ALLCFG, 'level': 'other', 'e2': True, 'roots': 'anchors'},
+    'C11': {'quick': ['A', 'B'], 'thorough': ALLCFG, 'level': 'other', 'e2': True, 'roots': 'anchors'},
+    'C18': {'quick': ['A', 'B'], 'thorough': ALLCFG, 'level': 'other', 'e2': True, 'roots': 'anchors'},
 }
+BEHAVIOURAL = {p for p, s in PROPS.items() if s.get('roots') == 'anchors'}
 
 
 def props_of(v):
@@ -36,6 +46,14 @@ def props_of(v):
     if v.get('props'):
         return set(v['props'])
     r = v['rule']
+    if r == 'APPEND-AFTER-MISS':
+        return {'C05'}
+    if r in ('MODEL', 'SHAPE', 'SPEC'):
+        # the analysis could not decide something inside this root: every property that relies on
+        # the root is affected (fail closed)
+        return set(SAFETY) | set(v.get('root_props') or ())
+    if r == 'ANCHOR':
+        return set(v.get('root_props') or ())
     unw = v.get('unwinding')
     what = v.get('what', '')
     if r == 'O1':
@@ -72,7 +90,7 @@ RULE_PROPS = {
     'O1': {'C02', 'C03', 'C17'}, 'O2': {'C02', 'C17'}, 'LEAK': {'C02'}, 'DROPALL': {'C02'},
     'HANDLE': {'C02', 'C05'}, 'HANDLE-DROP': {'C02'}, 'DROPIMPL': {'C02'},
     'INV': {'C02', 'C03', 'C05', 'C17'}, 'ESC-user': {'C04', 'C17'}, 'ESC-own': {'C03', 'C05', 'C17'},
-    'STRUCTINV': {'C02', 'C17'},
+    'STRUCTINV': {'C02', 'C17'}, 'APPEND-AFTER-MISS': {'C05'},
 }
 
 
@@ -159,6 +177,21 @@ def e2_collect(pid, facts, merged):
         for r in m['roots'].values():
             if r.get('error'):
                 pass
+        if pid in BEHAVIOURAL:
+            # fail closed on anchors: every root the property's schemas are written for must exist
+            from . import specs
+            have = {tuple(r.get('root_key') or ()) for r in m['roots'].values()}
+            allv = [v for v in allv if v['rule'] not in ('COVERAGE', 'CENSUS', 'FLOOR')]
+            anchors = specs.anchors(pid)
+            for k in anchors:
+                if tuple(k) not in have:
+                    a = graph.V('ANCHOR', 'missing-anchor', '<crate>', '%s::%s' % (k[0], k[2]),
+                                'the operation %s::%s (trait %s) that property %s is anchored on was not found '
+                                'among the analysis roots' % (k[0], k[2], k[1], pid), None, cfg)
+                    a['props'] = [pid]
+                    allv.append(a)
+            ob += len(anchors)
+            dis += sum(1 for k in anchors if tuple(k) in have)
         for v in allv:
             v = dict(v)
             v['config'] = cfg
@@ -168,11 +201,16 @@ def e2_collect(pid, facts, merged):
             if pid in RULE_PROPS.get(rule, ()):
                 ob += n
                 dis += m['n_ok'].get(rule, 0)
-        ob += n_cov + n_cen
-        dis += n_cov - len(cov) + n_cen - len(cen)
+        ob += m['n_oblig_p'].get(pid, 0)
+        dis += m['n_ok_p'].get(pid, 0)
+        if pid not in BEHAVIOURAL:
+            ob += n_cov + n_cen
+            dis += n_cov - len(cov) + n_cen - len(cen)
         for r in m['roots'].values():
             for rule, ss in r['samples'].items():
-                if pid in RULE_PROPS.get(rule, ()) and len(samples) < 8:
+                mine = pid in RULE_PROPS.get(rule, ()) or (pid in (r.get('root_props') or ())
+                                                            and rule in ('OUT', 'ROUTE', 'SCAN', 'ARMCALL'))
+                if mine and len(samples) < 8:
                     for s in ss[:1]:
                         samples.append(dict(s, rule=rule, config=cfg))
         stats[cfg] = {
@@ -187,6 +225,8 @@ def e2_collect(pid, facts, merged):
             'unsafe_callee_counts': counts,
             'interpreter_wall_s': round(m['wall'], 2),
             'config': cfg,
+            'schema_classes': {r['root']: r['digest'].get('classes') for r in m['roots'].values()
+                               if r.get('digest', {}).get('classes') and pid in (r.get('root_props') or ())},
         }
     return vs, ob, dis, samples, stats
 
@@ -228,7 +268,13 @@ def run_check(pid, tier, seed, only_key=None):
     spec = PROPS[pid]
     cfgs = spec[tier]
     if spec['e2']:
-        facts, merged = cli.gather(cfgs)
+        select = None
+        if spec.get('roots') == 'anchors':
+            from . import specs
+
+            def select(body, _pid=pid):
+                return _pid in specs.props_of_root(body)
+        facts, merged = cli.gather(cfgs, select=select)
     else:
         # graph-only properties: no interpreter run needed
         import tempfile
@@ -293,7 +339,7 @@ def run_check(pid, tier, seed, only_key=None):
         'exhaustive': True,
         'rule': 'every obligation generated by the abstract interpretation of every analysis root in every '
                 'listed build configuration; an obligation is distinct by (rule, root, inline chain, primitive)',
-        'explanation': LEVEL_TEXT.get(pid, ''),
+        'explanation': manifest_text.TEXT.get(pid, {}).get('level') or 'see MANIFEST.json level_claimed',
     }
     ev = {
         'property_id': pid, 'tier': tier, 'seed': seed, 'level': level, 'coverage': cov,
